@@ -107,7 +107,8 @@ std::vector<size_t> random_cuts(vh::Rng &r, size_t n, int style) {
         size_t step;
         if (style == 0) step = (size_t)r.range(1, 7);
         else if (style == 1) step = (size_t)r.range(1, 64);
-        else { step = 1; while (step < 400 && r.chance(3, 4)) step *= 2; step = (size_t)r.range(1, (int64_t)step); }
+        else if (style == 2) { step = 1; while (step < 400 && r.chance(3, 4)) step *= 2; step = (size_t)r.range(1, (int64_t)step); }
+        else step = (size_t)r.range(1500, 70000);
         at += step;
         if (at < n) c.push_back(at);
     }
@@ -117,6 +118,20 @@ std::vector<size_t> random_cuts(vh::Rng &r, size_t n, int style) {
 // ---------------------------------------------------------------------------------------------
 // stream mode
 // ---------------------------------------------------------------------------------------------
+//! give the message a payload whose text is 66 000 .. 200 000 bytes long
+void big_payload(vh::Rng &r, JGen &g, Msg &m) {
+    if (m.kind == Msg::ERROR) m.kind = Msg::RESULT;
+    Json o = Json::object();
+    size_t n = (size_t)r.range(66000, 200000);
+    std::string blob;
+    blob.reserve(n + 64);
+    while (blob.size() < n) { if (r.chance(1, 50)) blob += g.str(); else blob.append((size_t)r.range(1, 400), (char)('a' + r.below(26))); }
+    o["blob"] = blob;
+    o["tail"] = g.value(1, 3);
+    m.payload = o;
+    vh::counter("frames_longer_than_65535_bytes");
+}
+
 void check_valid_run(const char *what, int kind, const RunResult &rr, const std::vector<Event> &want, const std::string &stream,
                      const std::vector<size_t> &cuts) {
     const std::string pk = pk_name(kind);
@@ -144,6 +159,9 @@ void stream_case(uint64_t, vh::Rng &r) {
     sig.add((uint64_t)kind);
 
     int nmsg = (int)r.range(1, 8);
+    // one case in 40 carries a frame longer than 65535 bytes (length field uses its upper half)
+    const bool big = r.chance(1, 40);
+    const int big_at = big ? (int)r.below((uint64_t)nmsg) : -1;
     std::vector<Piece> pieces;
     std::vector<Event> want;
     std::string stream;
@@ -153,8 +171,10 @@ void stream_case(uint64_t, vh::Rng &r) {
     for (int i = 0; i < nmsg; ++i) {
         Piece pc;
         unsigned v = (unsigned)r.below(12);
+        if (i == big_at) v = (unsigned)r.below(10);    // never a batch
         if (v <= 6) {                                   // the framing's own encoder
             Msg m = gen_msg(r, g);
+            if (i == big_at) big_payload(r, g, m);
             std::unique_ptr<Proto> enc = make_proto(kind, magic);
             pc.bytes = encode_with_library(*enc, m);
             pc.expect.push_back(expected_event(m));
@@ -187,6 +207,7 @@ void stream_case(uint64_t, vh::Rng &r) {
             }
         } else if (v <= 9) {                            // harness-built single message, several spellings
             Msg m = gen_msg(r, g);
+            if (i == big_at) big_payload(r, g, m);
             Json j = msg_json(m, r.chance(1, 3));
             unsigned sp = (unsigned)r.below(4);
             std::string text = sp == 0 ? j.dump() : sp == 1 ? j.dump((int)r.range(1, 4)) : sp == 2 ? j.dump(-1, ' ', true) : j.dump(1, '\t');
@@ -229,6 +250,7 @@ void stream_case(uint64_t, vh::Rng &r) {
     vh::counter("pieces_batch", n_batch);
     vh::counter("pieces_handmade", n_hand);
     vh::counter_max("max_stream_bytes", stream.size());
+    if (big) vh::counter("streams_with_a_frame_longer_than_65535_bytes");
     vh::counter_max("max_json_depth", (uint64_t)g.f.max_depth + 1);
     if (g.f.str_bracket) vh::counter("streams_with_bracket_in_string");
     if (g.f.str_quote) vh::counter("streams_with_quote_in_string");
@@ -245,7 +267,7 @@ void stream_case(uint64_t, vh::Rng &r) {
     // whole
     { RunResult rr = run_segmented(kind, magic, stream, none); acc(rr); check_valid_run("unsegmented", kind, rr, want, stream, none); vh::counter("seg_whole"); }
     // byte by byte
-    {
+    if (!big) {
         std::vector<size_t> c;
         for (size_t i = 1; i < stream.size(); ++i) c.push_back(i);
         RunResult rr = run_segmented(kind, magic, stream, c); acc(rr);
@@ -254,7 +276,7 @@ void stream_case(uint64_t, vh::Rng &r) {
     }
     // random chunkings
     for (int style = 0; style < 3; ++style) {
-        std::vector<size_t> c = random_cuts(r, stream.size(), style);
+        std::vector<size_t> c = random_cuts(r, stream.size(), big ? 3 : style);
         RunResult rr = run_segmented(kind, magic, stream, c); acc(rr);
         check_valid_run("random-chunks", kind, rr, want, stream, c); vh::counter("seg_random");
     }
@@ -277,8 +299,13 @@ void stream_case(uint64_t, vh::Rng &r) {
                 for (size_t k = 0; k <= 8; ++k) { if (start + k < stream.size()) ps.insert(start + k); if (e >= k && e - k > 0) ps.insert(e - k); }
                 start = e;
             }
-            for (int k = 0; k < 40; ++k) ps.insert((size_t)r.range(1, (int64_t)stream.size() - 1));
+            for (int k = 0; k < (big ? 6 : 40); ++k) ps.insert((size_t)r.range(1, (int64_t)stream.size() - 1));
             ps.erase(0);
+            if (big) {      // a 100 KB stream is decoded a dozen times, not hundreds of times
+                std::vector<size_t> all(ps.begin(), ps.end());
+                ps.clear();
+                for (int k = 0; k < 12 && !all.empty(); ++k) ps.insert(all[(size_t)r.below(all.size())]);
+            }
             pos.assign(ps.begin(), ps.end());
         }
         for (size_t p : pos) {
